@@ -44,12 +44,15 @@ OPEN_STATEMENTS = [
     'with the parity of the incident edge qubits as occupation (bksf_number_operator_sound, hypothesis numberOk evaluated by the '
     'driver on every run; also checked on the implementation\'s output on random basis states); _one_body is '
     '-i/2 (A_ab B_b + B_a A_ab) resp. (1 - B_p)/2 and fails exactly when the edge {p,q} is absent (bksf_one_body_offdiagonal, '
-    'bksf_one_body_diagonal, bksf_one_body_fails_iff; hypothesis oneBodyOk evaluated on every run). NOT proved (correspondence '
+    'bksf_one_body_diagonal, bksf_one_body_fails_iff; hypothesis oneBodyOk evaluated on every run); _two_body with four '
+    'distinct indices is 1/8 A_pq A_rs (-1 - B_pB_q + B_pB_r + B_pB_s + B_qB_r + B_qB_s - B_rB_s - B_pB_qB_rB_s) and acts as the '
+    'double excitation: -A_pq A_rs on basis states with p, q occupied and r, s empty or vice versa, 0 elsewhere '
+    '(bksf_two_body_four_index_formula, bksf_two_body_four_index_sound; hypothesis twoBody4Ok evaluated on every run; the '
+    'selection rule is also checked exactly on the implementation\'s output). NOT proved (correspondence '
     '+ numeric spectral Spec oracle on the outputs only: even-parity-sector eigenvalues of the fermionic operator are '
-    'eigenvalues of the image, 1e-7, connected edge graphs with <= 8 edges, N <= 6): the image formulas of _two_body (4 / 3 / '
-    '2 distinct indices); that the entries selected by the main loop add up to the edge-operator image of the whole '
-    'Hamiltonian — FALSE on the pinned tree: known findings F05-bksf-four-index-sign (wrong sign of the B_pB_qB_rB_s term of '
-    'the four-index formula: found by the spectral oracle), F05-bksf-missing-edge (ValueError when the entry that is '
+    'eigenvalues of the image, 1e-7, connected edge graphs with <= 8 edges, N <= 6): the image formulas of _two_body for 3 / '
+    '2 distinct indices; that the entries selected by the main loop add up to the edge-operator image of the whole '
+    'Hamiltonian — FALSE in general on the pinned tree: known findings F05-bksf-missing-edge (ValueError when the entry that is '
     'transformed is not the entry whose edges were registered) and F05-bksf-complex-coefficients (non-Hermitian output for '
     'complex Hermitian input); the fermionic identities expressing a^dagger a monomials by Majorana edge operators and the '
     'isomorphism of the stabiliser subspace with the even-parity Fock space are not formalised (the oracle uses them as '
@@ -948,6 +951,24 @@ SPECTRUM_TOL = 1e-7
 MAX_SPECTRAL_EDGES = 8
 
 
+def apply_qubit_op(Q, m):
+    """Q|m> for a QubitOperator and a computational basis state, as {basis state: amplitude} (zeros dropped)"""
+    out = {}
+    for t, c in Q.terms.items():
+        x, amp = m, complex(c)
+        for qb, a in t:
+            bit = (x >> qb) & 1
+            if a == 'X':
+                x ^= 1 << qb
+            elif a == 'Y':
+                x ^= 1 << qb
+                amp *= (1j if bit == 0 else -1j)
+            elif a == 'Z':
+                amp *= (-1 if bit else 1)
+        out[x] = out.get(x, 0) + amp
+    return {k: v for k, v in out.items() if v != 0}
+
+
 def graph_connected(N, E):
     if N == 0:
         return False
@@ -989,13 +1010,6 @@ def spectrum_contained(ev, qv):
     return all(float(numpy.min(numpy.abs(qv - e))) < SPECTRUM_TOL * scale for e in ev)
 
 
-def four_index_sign_term(bksf, emi, p, q, r, s):
-    """`A_pq A_rs B_p B_q B_r B_s / 4`: (what `_two_body` returns for four distinct indices) minus (the image of
-    a†_p a†_q a_r a_s + h.c. under the edge-operator dictionary) — see finding F05-bksf-four-index-sign"""
-    B = [bksf.edge_operator_b(emi, i) for i in (p, q, r, s)]
-    return 0.25 * bksf.edge_operator_aij(emi, p, q) * bksf.edge_operator_aij(emi, r, s) * B[0] * B[1] * B[2] * B[3]
-
-
 def stream_bksf_terms(ctx):
     """_one_body / _two_body of the Bravyi-Kitaev superfast transform on given graphs"""
     of = ctx.of
@@ -1005,13 +1019,14 @@ def stream_bksf_terms(ctx):
                 'pattern) on seeded random simple graphs (N <= 6 vertices, columns (a, b) with a < b in row-major order as the '
                 'library builds them, and shuffled / re-oriented columns): the returned QubitOperator is compared EXACTLY with '
                 'the Model; when an edge operator of a non-edge is needed the library must raise ValueError exactly when the '
-                'Model returns null; the exact-regime flag oneBodyOk of bksf_one_body_offdiagonal / _diagonal is evaluated; on '
+                'Model returns null; the exact-regime flags oneBodyOk / twoBody4Ok of bksf_one_body_* / bksf_two_body_four_index_* are '
+                'evaluated; EXACT Spec check of the double-excitation selection rule (four distinct indices: the image is -A_pq A_rs on '
+                'basis states with p, q occupied and r, s empty or vice versa, 0 on all others) on random basis states; on '
                 'the implementation\'s output: Hermitian; SPEC ORACLE (numeric, tolerance 1e-7 on eigenvalues, graphs that are '
                 'connected with <= 8 edges): the even-parity-sector spectrum of (generic hopping on every edge + on-site terms) and of '
                 '(that background + 0.625 (a†_p a†_q a_r a_s + h.c.); for two distinct indices the self-adjoint term alone) is contained in the spectrum of the sum of the _one_body / '
-                '_two_body images — fails for four distinct indices on the pinned tree: listed finding F05-bksf-four-index-sign, '
-                'classified as known only when subtracting A_pq A_rs B_p B_q B_r B_s / 4 restores the spectrum; distinct = (graph, '
-                'index tuple)')
+                '_two_body images (this oracle found the wrong sign of the B_p B_q B_r B_s term of the four-index formula, repaired '
+                'in the source since); distinct = (graph, index tuple)')
     rng = rng_for(ctx.seed, 'c05-bksf-terms')
     reqs, meta = [], []
 
@@ -1105,6 +1120,19 @@ def stream_bksf_terms(ctx):
             meta.append(('two', case, status, None if Q is None else enc_op('qubit', Q.terms)))
             if Q is not None and not (of.hermitian_conjugated(Q) == Q):
                 st.violate('_two_body output is not Hermitian', case, {})
+            if Q is not None and len({p, q, r, s2}) == 4:
+                # Spec (bksf_two_body_four_index_sound), exact, on the implementation's outputs: on a basis state m the
+                # image vanishes unless p, q are occupied and r, s empty (or the other way round); there it is -A_pq A_rs
+                AA = bksf.edge_operator_aij(emi, p, q) * bksf.edge_operator_aij(emi, r, s2)
+                for _ in range(4):
+                    m = rng.getrandbits(len(E))
+                    occ = {i: sum(1 for e, (a, b) in enumerate(E) if (m >> e) & 1 and i in (a, b)) % 2 for i in (p, q, r, s2)}
+                    active = (occ[p], occ[q], occ[r], occ[s2]) in ((1, 1, 0, 0), (0, 0, 1, 1))
+                    want = {k2: -v2 for k2, v2 in apply_qubit_op(AA, m).items()} if active else {}
+                    st.count('double-excitation selection rule: %s state' % ('active' if active else 'inactive'))
+                    if apply_qubit_op(Q, m) != want:
+                        st.violate('_two_body (four distinct indices) is not the double excitation -A_pq A_rs on (1,1,0,0)/(0,0,1,1) '
+                                   'occupations and 0 elsewhere', dict(case, basis_state=m), {})
             if Q is not None and bg is not None and spectral_left[len({p, q, r, s2})] > 0:
                 # Spec: bg + w (a†_p a†_q a_r a_s + h.c.) and its image have the same even-sector spectrum
                 spectral_left[len({p, q, r, s2})] -= 1
@@ -1117,12 +1145,8 @@ def stream_bksf_terms(ctx):
                 good = spectrum_contained(ev, qubit_spectrum(of, bg[1] + 0.625 * Q, len(E)))
                 st.count('spectral check _two_body distinct=%d: %s' % (len({p, q, r, s2}), 'ok' if good else 'FAILS'))
                 if not good:
-                    explained = False
-                    if len({p, q, r, s2}) == 4:
-                        Qc = Q - four_index_sign_term(bksf, emi, p, q, r, s2)
-                        explained = spectrum_contained(ev, qubit_spectrum(of, bg[1] + 0.625 * Qc, len(E)))
                     st.violate('_two_body is not the image of a†_p a†_q a_r a_s + h.c. (even-sector spectrum of background + term)',
-                               dict(case, explained_by_four_index_sign=explained), {})
+                               case, {})
     for (kind, case, status, impl), mo in zip(meta, ctx.driver.run(reqs)):
         if status == 'missing-edge':
             st.count('missing edge: library raises, Model null')
@@ -1133,7 +1157,11 @@ def stream_bksf_terms(ctx):
         if mo is None:
             st.disagree(case['fn'] + ': the Model reports a missing edge but the library returns an operator', case, impl, mo)
             continue
-        mop = mo['op'] if kind == 'one' else mo
+        mop = mo['op']
+        if kind == 'two' and len({case['p'], case['q'], case['r'], case['s']}) == 4:
+            st.count('twoBody4Ok: %s' % mo['ok4'])
+            if mo['ok4'] is not True:
+                st.count('theorem-hypothesis-not-met')
         if kind == 'one':
             st.count('oneBodyOk: %s' % mo['ok'])
             if mo['ok'] is not True:
@@ -1156,10 +1184,8 @@ def stream_bksf(ctx):
                 'coefficients: listed finding F05-bksf-complex-coefficients; any failure on a real tensor is a new violation), '
                 'number_operator is diagonal with the parity-of-incident-edge-qubits eigenvalues on random basis states; SPEC '
                 'ORACLE (numeric, 1e-7 on eigenvalues) for real element-wise Hermitian tensors whose edge graph is connected with '
-                '<= 8 edges: every eigenvalue of H on the even-parity sector is an eigenvalue of bravyi_kitaev_fast(H) — fails on '
-                'the pinned tree when entries with four distinct indices are transformed: listed finding '
-                'F05-bksf-four-index-sign, classified as known only when subtracting c A_pq A_rs B_p B_q B_r B_s / 4 per '
-                'transformed entry restores the spectrum; distinct = distinct tensors')
+                '<= 8 edges: every eigenvalue of H on the even-parity sector is an eigenvalue of bravyi_kitaev_fast(H) (a hard '
+                'oracle: every failure is a violation); distinct = distinct tensors')
     b = Batch(ctx, st)
     rng = rng_for(ctx.seed, 'c05-bksf-full')
     reqs, meta = [], []
@@ -1220,16 +1246,7 @@ def stream_bksf(ctx):
                 good = spectrum_contained(ev, qubit_spectrum(of, Q, len(E)))
                 st.count('spectral check (real, element-wise Hermitian, connected graph): %s' % ('ok' if good else 'FAILS'))
                 if not good:
-                    # the entries with four distinct indices that the main loop transforms
-                    Qc, n4 = Q, 0
-                    for (p4, q4, r4, s4) in itertools.permutations(range(N), 4):
-                        c4 = complex(iop.two_body_tensor[p4, q4, r4, s4])
-                        if c4 and not (min(r4, s4) < min(p4, q4)):
-                            Qc = Qc - c4 * four_index_sign_term(bksf, emi, p4, q4, r4, s4)
-                            n4 += 1
-                    explained = n4 > 0 and spectrum_contained(ev, qubit_spectrum(of, Qc, len(E)))
-                    st.violate('bravyi_kitaev_fast(H) does not contain the even-sector spectrum of H',
-                               dict(case, explained_by_four_index_sign=explained, four_index_entries_transformed=n4), {})
+                    st.violate('bravyi_kitaev_fast(H) does not contain the even-sector spectrum of H', case, {})
             if not (of.hermitian_conjugated(Q) == Q):
                 has_im = bool(numpy.any(numpy.imag(iop.one_body_tensor) != 0) or numpy.any(numpy.imag(iop.two_body_tensor) != 0))
                 st.violate('bravyi_kitaev_fast of a Hermitian InteractionOperator is not Hermitian',
@@ -1288,10 +1305,6 @@ def classify(v):
     if v.get('stream') == 'bksf-transform' and case.get('has_imaginary_coefficients') is True \
             and v.get('what', '') == 'bravyi_kitaev_fast of a Hermitian InteractionOperator is not Hermitian':
         return 'F05-bksf-complex-coefficients'
-    if v.get('stream') in ('bksf-transform', 'bksf-term-images') and case.get('explained_by_four_index_sign') is True \
-            and (v.get('what', '').startswith('bravyi_kitaev_fast(H) does not contain the even-sector spectrum')
-                 or v.get('what', '').startswith('_two_body is not the image of')):
-        return 'F05-bksf-four-index-sign'
     return None
 
 
@@ -1309,21 +1322,6 @@ def probe_known(ctx, k):
         except Exception:
             return True
         return False
-    if k['id'] == 'F05-bksf-four-index-sign':
-        bksf = importlib.import_module('openfermion.transforms.opconversions.bksf')
-        N = 4
-        one = numpy.zeros((N, N))
-        for i in range(N - 1):
-            one[i, i + 1] = one[i + 1, i] = 0.75 - 0.125 * i
-        two = numpy.zeros((N,) * 4)
-        two[1, 0, 3, 2] = two[2, 3, 0, 1] = 0.625
-        iop = of.InteractionOperator(0.0, one, two)
-        try:
-            Q = bksf.bravyi_kitaev_fast(iop)
-            ev = even_sector_spectrum(of, of.get_fermion_operator(iop), N)
-            return not spectrum_contained(ev, qubit_spectrum(of, Q, 3))
-        except Exception:
-            return True
     if k['id'] == 'F05-bksf-complex-coefficients':
         bksf = importlib.import_module('openfermion.transforms.opconversions.bksf')
         one = numpy.zeros((3, 3), complex)
